@@ -451,13 +451,7 @@ pub fn c15_ops() -> Vec<Op> {
     with_context(v)
 }
 
-/// the tokens of a rendering, sorted: what stays the same when unordered components (and the operands of
-/// symmetric statements, which `==` treats as unordered) are printed in another order
-fn token_bag(s: &str) -> String {
-    let mut t: Vec<&str> = s.split_whitespace().collect();
-    t.sort_unstable();
-    t.join(" ")
-}
+use crate::props::c16::token_bag;
 
 /// value ops: the Typst text of a value, as a bag of tokens. "Equal values render identically up to the order of
 /// unordered components": whenever a value is rendered - first call of the process or after other calls, here or
